@@ -161,6 +161,20 @@ func c06DrawCase(rt *rapid.T) *c06Case {
 	cs := &c06Case{}
 	nch := rapid.SampledFrom([]int{1, 1, 2, 2, 3}).Draw(rt, "nChanges")
 	var hosts []string
+	if rapid.IntRange(0, 7).Draw(rt, "scoping") == 0 {
+		// A change that declares metavariables x and y, followed in the same
+		// patch file by one in which x and y are plain names: what the first
+		// declares is not in scope in the second.
+		nch = 0
+		for _, label := range []string{rapid.SampledFrom([]string{"fail-unbound", "fail-some", "bump"}).Draw(rt, "declaring"), "plain-names"} {
+			for i := range c14Specials {
+				if sp := &c14Specials[i]; sp.Label == label {
+					cs.Changes = append(cs.Changes, c06Change{Text: sp.Text, Label: sp.Label, Kind: "special", Needle: c06Needles[sp.Label]})
+					hosts = append(hosts, c14Plant(rt, c14SmallHost(rt, label+"host"), sp, label+"plant"))
+				}
+			}
+		}
+	}
 	for i := 0; i < nch; i++ {
 		ch, host := c06DrawChange(rt, i)
 		cs.Changes = append(cs.Changes, *ch)
